@@ -1,7 +1,7 @@
 """C03 — every value is a fixed point of its definition (premises P1-P3)."""
 from ..core import get_core
 from .. import corerules as R
-from ..linerules import l1_access, l2_effects, l2b_shared_iterators
+from ..linerules import l1_access, l2_effects, l2b_shared_iterators, l2c_generators_consumed_once
 
 
 def check(tree, rep, tier='quick', seed=0):
@@ -19,6 +19,7 @@ def check(tree, rep, tier='quick', seed=0):
     l1_access(tree, rep)
     l2_effects(tree, rep)
     l2b_shared_iterators(tree, rep)
+    l2c_generators_consumed_once(tree, rep)
     from .c17 import one_definition_per_name, get_catalogue
     one_definition_per_name(get_catalogue(tree), rep)
     R.k12c_who_calls(core, rep)          # lines are evaluated only from the work-list loop (never between two answers of a round)
